@@ -1,4 +1,5 @@
 import Orca.Lemmas.SemBranch
+import Orca.Lemmas.Bridge
 import Orca.Gen.ResolverOutline
 import Orca.Model.ResolverOutlineSpec
 import Orca.Lemmas.SpecialFlat
@@ -190,3 +191,32 @@ theorem c20_semantic_after_code_reviewed :
     ∧ Orca.Gen.Outline.create_bool_flag = Orca.Lower.Outline.create_bool_flag
     ∧ Orca.Gen.Outline.save_flagged_body_to_resolve = Orca.Lower.Outline.save_flagged_body_to_resolve :=
   ⟨rfl, rfl, rfl⟩
+
+/-- **From the tree model to the code model.** The theorems above are about the tree lowering `lowerF` (semantic after: `c20_function_partial` is about `lowerF F`, flags included). This one closes the gap to
+    M3, the transcription of the code's lowering on flat instruction lists: flatten the annotated structured function to the instructions
+    and instrumentation lists the API would have built, let M3 lower it (`resolve_special_instrumentation` + emission, proved to be the
+    stack machine in Lemmas/StackFull.lean), and the tokens are exactly those of `lowerF F`, the locals added exactly its flags
+    (Lemmas/Bridge.lean, by mutual induction over the program with the machine's frames as the context). Scope: at most two flag-guarded
+    bodies behind one `end` (beyond that the code's chain is ill-formed: F27), no flagged branch to a loop, non-empty branch probes, branch
+    depths inside the function, flags numbered in program order, no `before` code on the first instruction next to function-level code
+    (there the code puts the entry code behind it). -/
+theorem c20_code_lowering_is_tree_lowering (F : Orca.Sem.Func) (nl : Nat) (hok : Orca.Bridge.okL F.body = true)
+    (hd : Orca.Bridge.depthOkL 1 F.body = true)
+    (hnum : Orca.Sem.flagsL F.body = List.range' nl (Orca.Sem.flagsL F.body).length)
+    (hfirst : (F.entry = [] ∧ F.exit = []) ∨ ((Orca.Bridge.flatF F nl).body.head?.map (·.before)) = some []) :
+    Orca.Lower.lower (Orca.Bridge.flatF F nl)
+      = (Orca.Bridge.toksL (Orca.Sem.lowerF F).body ++ [Orca.Lower.tEnd], (Orca.Sem.flagsL F.body).length) :=
+  Orca.Bridge.code_lowering_is_tree_lowering F nl hok hd hnum hfirst
+
+/-! non-vacuity (decided): a function with exit probes whose body is a block with an exit probe containing a flagged `br_if 0` (flag
+    local 2) and a `return`: every hypothesis of the bridge holds -/
+private def exBridgeBody : List Orca.Sem.Instr :=
+  [.block [] { exit := [5] } 0 "block" [.op [] [] (.const 1), .brIf [] [] (some ⟨2, [9]⟩) 0, .ret [] []]]
+private def exBridge : Orca.Sem.Func := { nres := 0, exit := [7], body := exBridgeBody }
+set_option maxRecDepth 40000 in
+example :
+    Orca.Bridge.okL exBridge.body = true ∧ Orca.Bridge.depthOkL 1 exBridge.body = true
+    ∧ Orca.Sem.flagsL exBridge.body = List.range' 2 (Orca.Sem.flagsL exBridge.body).length
+    ∧ ((Orca.Bridge.flatF exBridge 2).body.head?.map (·.before)) = some []
+    ∧ (Orca.Lower.lower (Orca.Bridge.flatF exBridge 2)).2 = 1 := by
+  decide
